@@ -177,6 +177,35 @@ class Adversary(InstructionGenerator):
         return self, tuple(build_instruction(o) for o in ops)
 
 
+import dataclasses as _dc
+
+
+@_dc.dataclass(frozen=True)
+class Ticker(InstructionGenerator):
+    """a user generator written the way HIVE's protocol intends: immutable, its state (a call counter) travels in the NEW
+    generator it returns.  What it emits is a pure function of (counter, state), so any execution shape that threads the
+    returned generator into the next step behaves identically; a pipeline that drops or re-uses a stale generator does not."""
+    cells: tuple = ()
+    count: int = 0
+    period: int = 2
+
+    def generate_instructions(self, sim, env):
+        nxt = _dc.replace(self, count=self.count + 1)
+        vids = sorted(sim.vehicles)
+        if not vids or self.count % self.period != 0:
+            return nxt, ()
+        j = self.count // self.period
+        vid = vids[j % len(vids)]
+        v = sim.vehicles[vid]
+        if type(v.vehicle_state).__name__ == "Idle" and self.cells:
+            pos = sim.road_network.position_from_geoid(self.cells[j % len(self.cells)])
+            if pos is not None:
+                return nxt, (RepositionInstruction(vid, pos.link_id),)
+        if type(v.vehicle_state).__name__ == "Repositioning":
+            return nxt, (IdleInstruction(vid),)
+        return nxt, ()
+
+
 class Spy(InstructionGenerator):
     """delegates to a real built-in generator and records (state, environment, what it returned)"""
 
